@@ -5,15 +5,21 @@ Three case kinds in one pool:
 * 'rot' (engine T x G)  one pair (ns, we) of words over {-1,0,2} of equal length, every angle of the
         menu inside: combine_at_angle against ns*cos+we*sin written with math.cos/math.sin, the
         theta=0 / 90 / +180 identities, result type and dt; compute_rotated for offsets x points x
-        measures against the measure of the reference combination at the reference angle.
+        measures against the measure of the reference combination at the reference angle; the measure menu
+        holds scalar parameter names, the Arias name, scalar- and series-returning callables AND series-valued
+        parameter names (velocity, displacement, s_a), for which row i of the scan is the whole series.
 * 'tm'  (engine S)      one master record (a permutation of 0..n-1 from a fixed family) with every
         steps x lag x cluster size x master index inside; post-conditions of Cluster.time_match.
 * 'ss'  (engine T x G)  one head (first one or two words) of a cluster of 2..4 words over {0,1,3};
         all completions x every master index x every section window inside; post-conditions of
-        Cluster.same_start.
+        Cluster.same_start.  On-grid windows are judged by a reference over the samples start <= t_i <= end;
+        the blocks with L = 4 also get window bounds that are not sample times and, on all their windows, the
+        relation "after same_start(start, end) every signal reports the master's
+        Signal.get_section_average(start=, end=)" (the library's public definition of the chosen section).
 """
 import itertools
 import math
+from fractions import Fraction
 
 import numpy as np
 
@@ -28,7 +34,10 @@ OFFSETS = (0, 30, 200)
 POINTS = (3, 7)
 ROT_DT = 0.01
 G = 9.81
-MEASURES = ('pga', 'pgv', 'arias_intensity', 'func-scalar', 'func-series')
+MEASURES = ('pga', 'pgv', 'arias_intensity', 'func-scalar', 'func-series', 'velocity', 'displacement', 's_a')
+# named parameters whose value is a whole series: the scan must return that series for every angle (shape (points, len))
+SERIES_MEASURES = ('velocity', 'displacement', 's_a')
+S_A_POINTS = (3,)       # 's_a' (100 periods, two spectra per angle) only with the smaller number of scan points
 
 # ---- time_match menus -------------------------------------------------------------------------
 TM_LENGTHS = (10, 12)
@@ -45,6 +54,17 @@ WINDOWS = ((0, 0.1), (0, 0.3), (0.1, 0.3))
 # 0.3/0.1 = 2.9999999999999996): a rounding-level tie (DESIGN section 3) - either reading is accepted, the same one
 # for every signal of the cluster.
 SS_INDEX_WINDOWS = {(0, 0.1): ((0, 2),), (0, 0.3): ((0, 3), (0, 4)), (0.1, 0.3): ((1, 3), (1, 4))}
+# Window bounds that are NOT sample times (bound/dt with a fractional part >= 0.5: 1.7, 2.6; < 0.5: 1.2, 2.3).  The
+# statement does not say which samples such a section consists of, so no index window is presupposed: the section
+# average of a signal is what the library's own public Signal.get_section_average(start=, end=) reports for the same
+# bounds, and after same_start(start, end) every signal must report the master's value (a relation between public
+# calls).  The same relation is checked on the on-grid windows above (there in addition to the reference), including
+# the rounding-level ties (a quotient just below an integer).  The index windows listed here (every floor/ceil
+# reading) only serve the non-triviality count.
+OFFGRID_WINDOWS = ((0.17, 0.26), (0.12, 0.23))
+SS_OFFGRID_INDEX_WINDOWS = {(0.17, 0.26): ((1, 3), (1, 4), (2, 3), (2, 4)), (0.12, 0.23): ((1, 3), (1, 4), (2, 3), (2, 4))}
+OFFGRID_GE_HALF = {w: any((Fraction(repr(b)) / Fraction('0.1')) % 1 >= Fraction(1, 2) for b in w) for w in OFFGRID_WINDOWS}
+OFFGRID_L = (4,)        # blocks (by word length) that also get the off-grid windows and the reported-average relation
 
 
 def lcg_perm(n, j):
@@ -102,29 +122,36 @@ def build(tier, seed):
     return {
         'cases': cases,
         'rule': "kind 'rot': all pairs (ns, we) of words over {-1,0,2} of equal length 1..%d x angles %s (+180 partner) and "
-                "compute_rotated offsets %s x points %s x measures %s; kind 'tm': %d distinct permutation masters (fixed "
+                "compute_rotated offsets %s x points %s x measures %s (s_a: points 3 only); kind 'tm': %d distinct permutation masters (fixed "
                 "LCG family, lengths %s) x steps %s x every lag in (-steps, steps) x clusters of 2..4 signals x every "
                 "master_index (non-masters carry lags l, -l, l+1 wrapped into the window; edge padded); kind 'ss': complete "
-                "products family^m of words over {0,1,3}: %s, x every master_index x windows %s at dt=0.1.  non-trivial = "
+                "products family^m of words over {0,1,3}: %s, x every master_index x windows %s at dt=0.1; blocks with L in %s "
+                "also x off-grid windows %s, and on all their windows every signal must report the master's "
+                "get_section_average(start, end) after same_start(start, end).  non-trivial = "
                 "rotation pair not both zero; lag-matching configuration with a non-zero lag; same-start cluster in which "
                 "some non-master's section average differs from the master's"
                 % (Lrot, list(ANGLES), list(OFFSETS), list(POINTS), list(MEASURES), masters, list(TM_LENGTHS), list(TM_STEPS),
-                   ['m=%d L=%d family=%s' % (m, L, f) for m, L, f, _ in plan], [list(w) for w in WINDOWS]),
+                   ['m=%d L=%d family=%s' % (m, L, f) for m, L, f, _ in plan], [list(w) for w in WINDOWS], list(OFFGRID_L),
+                   [list(w) for w in OFFGRID_WINDOWS]),
         'bounds': {'rotation': {'alphabet': SIG_ROT, 'max_len': Lrot, 'angles': ANGLES, 'offsets': OFFSETS, 'points': POINTS,
-                                'measures': MEASURES, 'dt': ROT_DT},
+                                'measures': MEASURES, 's_a_points': S_A_POINTS, 'dt': ROT_DT},
                    'time_match': {'lengths': TM_LENGTHS, 'masters_per_length': TM_FAMILY, 'steps': TM_STEPS,
                                   'cluster_sizes': [2, 3, 4], 'dt': TM_DT},
                    'same_start': {'alphabet': SIG_SS, 'blocks': [[m, L, f] for m, L, f, _ in plan], 'windows': WINDOWS,
+                                  'offgrid_windows': OFFGRID_WINDOWS, 'offgrid_and_reported_average_relation_for_L': OFFGRID_L,
                                   'dt': SS_DT,
                                   'families': {'all': 'all words of length L', 'R27': '(x,y,z,1[,0])', 'R9': '(x,y,3,1[,0])'}}},
         'required_classes': ['rot-theta-0', 'rot-theta-90', 'rot-negation', 'rot-general-angle',
                              'scan-pga', 'scan-pgv', 'scan-arias_intensity', 'scan-func-scalar', 'scan-func-series',
+                             'scan-velocity', 'scan-displacement', 'scan-s_a', 'scan-series-valued-parameter',
                              'scan-offset-0', 'scan-offset-30', 'scan-offset-200', 'scan-points-3', 'scan-points-7',
                              'scan-series-last-differs-from-first',
                              'tm-lag-positive', 'tm-lag-negative', 'tm-lag-zero', 'tm-nsig-2', 'tm-nsig-3', 'tm-nsig-4',
                              'tm-master-0', 'tm-master-nonzero', 'tm-max-lag',
                              'ss-nsig-2', 'ss-nsig-3', 'ss-nsig-4', 'ss-master-0', 'ss-master-1', 'ss-master-last',
-                             'ss-shift-nonzero', 'ss-already-aligned', 'ss-window-decided', 'ss-window-rounding-tie'],
+                             'ss-shift-nonzero', 'ss-already-aligned', 'ss-window-decided', 'ss-window-rounding-tie',
+                             'ss-window-off-grid', 'ss-window-bound-fraction-ge-half', 'ss-window-bound-fraction-lt-half',
+                             'ss-reported-average-relation'],
         'assumptions': ['rotation reference: ns*cos(theta)+we*sin(theta) with math.cos/math.sin per sample; measures from '
                         'their definitions (max abs; trapezoid velocity; pi/(2*9.81)*trapezoid(a^2); user callables)',
                         'lag matching is examined only for slaves that are exact edge-padded integer shifts of a master with '
@@ -133,7 +160,13 @@ def build(tier, seed):
                         'the pad value written outside the overlap by time_match is not constrained by the property',
                         'same_start: for m >= 3 the cluster members are drawn from the reduced families named in the bounds '
                         '(complete products of those), pairs are complete over all words of length 4 and 5',
-                        'section end 0.3 at dt 0.1 is a rounding-level tie for sample 3: both index windows are accepted']}
+                        'section end 0.3 at dt 0.1 is a rounding-level tie for sample 3: both index windows are accepted',
+                        'window bounds that are not sample times: the statement does not define the samples of such a section; '
+                        'the chosen section average of a signal is what Signal.get_section_average(start=, end=) reports for '
+                        'the same bounds (relation between public calls); the floor/ceil index windows only feed the '
+                        'non-triviality count',
+                        'series-valued named parameters (velocity, displacement: trapezoid rule as for pgv; s_a: the library\'s own '
+                        's_a of the reference combination, default periods): row i of the scan is the whole series']}
 
 
 # ---------------------------------------------------------------------------------------------
@@ -164,6 +197,20 @@ def ref_measure(name, c, dt):
         return math.fsum(abs(v) for v in c)
     if name == 'func-series':
         return math.fsum(c)          # last value of the running sum
+    if name in ('velocity', 'displacement'):
+        v = [0.0]
+        for i in range(1, len(c)):
+            v.append(v[-1] + dt * (c[i] + c[i - 1]) / 2.0)
+        if name == 'velocity':
+            return v                 # the whole series
+        d = [0.0]
+        for i in range(1, len(c)):
+            d.append(d[-1] + dt * (v[i] + v[i - 1]) / 2.0)
+        return d
+    if name == 's_a':
+        # the measure itself (C04's subject) is not re-derived here: "the measure of that combination" is the library's
+        # own s_a of a fresh AccSignal holding the REFERENCE combination (default periods) - the whole spectrum
+        return [float(x) for x in eqsig.AccSignal(np.array(c, dtype=float), dt).s_a]
     raise ValueError(name)
 
 
@@ -228,6 +275,8 @@ def run_rot(c):
             want_ang = [180.0 * i / (pts - 1) for i in range(pts)]
             combos = [ref_combo(ns, we, a - off) for a in want_ang]
             for meas in MEASURES:
+                if meas == 's_a' and pts not in S_A_POINTS:
+                    continue
                 sub = dict(base, offset=off, points=pts, measure=meas)
                 r.states += 1
                 r.cls('scan-' + meas)
@@ -258,7 +307,17 @@ def run_rot(c):
                 r.expect('rotated.angles', sub, all(abs(e) <= 1e-9 for e in err),
                          '(angle + offset) mod 360 differs from linspace(0, 180, points) mod 360',
                          observed=deg, expected=[(a - off) % 360.0 for a in want_ang])
-                want = [ref_measure(meas, cb, ROT_DT) for cb in combos]
+                try:
+                    want = [ref_measure(meas, cb, ROT_DT) for cb in combos]
+                except Exception as e:  # noqa   (only the library-evaluated measure 's_a' can raise here)
+                    r.fail('rotated.scan', sub, 'the measure of the reference combination cannot be evaluated: %r' % (e,))
+                    continue
+                if meas in SERIES_MEASURES:
+                    # series-valued named parameter: row i is the whole series of combination i
+                    r.cls('scan-series-valued-parameter')
+                    r.expect_close('rotated.values', sub, vals, want, rtol=1e-9, atol=1e-13,
+                                   what='row i vs the whole %s series of the reference combination at angle i' % meas)
+                    continue
                 r.expect_close('rotated.values', sub, vals, want, rtol=1e-9, atol=1e-13,
                                what='value i vs %s of the reference combination at angle i' % meas)
     return r
@@ -389,15 +448,18 @@ def run_ss(c):
 
     def cc(name):
         ccount[name] = ccount.get(name, 0) + 1
+    relation = L in OFFGRID_L
+    windows = [(w, True) for w in WINDOWS] + ([(w, False) for w in OFFGRID_WINDOWS] if relation else [])
     for tail in itertools.product(fam, repeat=m - len(head)):
         ws = head + list(tail)
         for mi in range(m):
-            for (start, end) in WINDOWS:
-                iw = SS_INDEX_WINDOWS[(start, end)]
+            for (start, end), ongrid in windows:
+                iw = SS_INDEX_WINDOWS[(start, end)] if ongrid else SS_OFFGRID_INDEX_WINDOWS[(start, end)]
                 n_states += 1
-                s0, e0 = iw[0]
-                mavg = _mean(ws[mi][s0:e0])
-                moved = any(_mean(ws[j][s0:e0]) != mavg for j in range(m) if j != mi)
+                moved = False
+                for s0, e0 in (iw[:1] if ongrid else iw):
+                    mavg = _mean(ws[mi][s0:e0])
+                    moved = moved or any(_mean(ws[j][s0:e0]) != mavg for j in range(m) if j != mi)
                 if moved:
                     n_nontriv += 1
                     cc('ss-shift-nonzero')
@@ -410,7 +472,14 @@ def run_ss(c):
                     cc('ss-master-1')
                 if mi == m - 1:
                     cc('ss-master-last')
-                cc('ss-window-decided' if len(iw) == 1 else 'ss-window-rounding-tie')
+                if ongrid:
+                    cc('ss-window-decided' if len(iw) == 1 else 'ss-window-rounding-tie')
+                else:
+                    cc('ss-window-off-grid')
+                    if OFFGRID_GE_HALF[(start, end)]:
+                        cc('ss-window-bound-fraction-ge-half')
+                    else:
+                        cc('ss-window-bound-fraction-lt-half')
                 sub = {'words': ws, 'master_index': mi, 'start': start, 'end': end}
                 r.evals += 1
                 try:
@@ -424,13 +493,33 @@ def run_ss(c):
                     n_cmp += 1
                     r.fail('same_start.call', sub, 'raises %s: %s' % (type(e).__name__, str(e)[:200]))
                     continue
+                if relation:
+                    # the chosen section average as the library itself reports it for the same bounds
+                    cc('ss-reported-average-relation')
+                    try:
+                        rep_avg = [float(cl.signal_by_index(j).get_section_average(start=start, end=end)) for j in range(m)]
+                    except Exception as e:  # noqa
+                        n_cmp += 1
+                        r.fail('same_start.section-average-reported', sub,
+                               'get_section_average(start, end) raises %s: %s' % (type(e).__name__, str(e)[:200]))
+                        rep_avg = None
+                    if rep_avg is not None:
+                        for j in range(m):
+                            if j == mi:
+                                continue
+                            n_cmp += 1
+                            if not abs(rep_avg[j] - rep_avg[mi]) <= 1e-12:
+                                r.fail('same_start.section-average-reported', dict(sub, signal=j),
+                                       'after same_start(start, end) signal %d reports get_section_average(start, end) = %r, '
+                                       'the master reports %r' % (j, rep_avg[j], rep_avg[mi]),
+                                       observed=new[j], expected=rep_avg[mi])
                 # master unchanged
                 n_cmp += 1
                 if new[mi] != [float(x) for x in ws[mi]]:
                     r.fail('same_start.master-unchanged', sub, 'master signal was modified', observed=new[mi], expected=ws[mi])
-                # section averages: choose the admissible index window that fits best, report the misfits
+                # section averages (on-grid windows): choose the admissible index window that fits best, report the misfits
                 best = None
-                for (s_i, e_i) in iw:
+                for (s_i, e_i) in (iw if ongrid else ()):
                     ref = _mean(new[mi][s_i:e_i])
                     bad = []
                     for j in range(m):
@@ -448,7 +537,7 @@ def run_ss(c):
                     if j == mi:
                         continue
                     n_trans += 1
-                    n_cmp += 2
+                    n_cmp += 2 if ongrid else 1
                     # differs from its old self by one constant
                     if len(new[j]) != L:
                         r.fail('same_start.constant-shift', dict(sub, signal=j), 'length changed', observed=new[j], expected=ws[j])
@@ -457,7 +546,7 @@ def run_ss(c):
                         if not (max(d) - min(d) <= 1e-12):
                             r.fail('same_start.constant-shift', dict(sub, signal=j),
                                    'signal does not differ from its old self by one constant', observed=new[j], expected=ws[j])
-                for j, a, ref in best:
+                for j, a, ref in (best or ()):
                     r.fail('same_start.section-average', dict(sub, signal=j),
                            'section average of signal %d is %r, the master\'s is %r' % (j, a, ref),
                            observed=new[j], expected=ref)
